@@ -183,7 +183,10 @@ func (s *Sim) takePend(ch uintptr) *pendSend {
 			if p.grp != nil {
 				p.grp.fired, p.grp.idx = true, p.idx
 			}
-			copy(s.pend[i:], s.pend[i+1:])
+			// element-wise: runtime.slicecopy is instrumented even under go:norace
+			for j := i; j+1 < len(s.pend); j++ {
+				s.pend[j] = s.pend[j+1]
+			}
 			s.pend[len(s.pend)-1] = nil // no stale reference to the value in the backing array
 			s.pend = s.pend[:len(s.pend)-1]
 			return p
